@@ -361,7 +361,7 @@ class Gen:
         """structure-aware corruption of a valid encoding"""
         r = self.rng
         b = bytearray(raw)
-        m = r.choice(['trunc', 'extend', 'flip', 'offset', 'insert', 'lastbyte', 'zero', 'byte', 'none', 'dup'])
+        m = r.choice(['trunc', 'extend', 'flip', 'offset', 'insert', 'lastbyte', 'zero', 'byte', 'none', 'dup', 'zeroword', 'zeroword'])
         if m == 'trunc' and b:
             del b[r.randrange(len(b)):]
         elif m == 'extend':
@@ -387,6 +387,12 @@ class Gen:
         elif m == 'byte' and b:
             i = r.randrange(len(b))
             b[i] = r.choice([0, 1, 2, 3, 4, 5, 8, 0xff, 0x80])
+        elif m == 'zeroword' and len(b) >= 4:
+            i = r.randrange(0, len(b) - 3)
+            i -= i % 4
+            b[i:i + 4] = bytes(4)
+            if r.random() < 0.4:
+                del b[i + 4:]
         elif m == 'dup' and b:
             i = r.randrange(len(b))
             b[i:i] = b[i:i + 4]
